@@ -132,7 +132,7 @@ P('C09', claimed=True, level='proof',
               'finite-set cardinality axioms, dict/itertools.count models. __iter__ is a generator: '
               'bounded only. Priorities are finite reals.'))
 
-P('C10', claimed=True, level='other', contracts=['base_clock_sched'], drivers=['vf.drivers.C10'],
+P('C10', claimed=True, level='other', contracts=['base_clock_sched', 'base_rng'], drivers=['vf.drivers.C10'],
   level_text=('The mode switch refines one contract: for SystemClock.sched/sched_abs, TempoClock.sched/'
               'sched_abs and AppClock.sched (NRT) both branches are proved to schedule the same task at the '
               'same logical time, and the NRT wake-up re-schedules at scheduled time + delta through the '
@@ -202,7 +202,7 @@ P('C15', claimed=True, level='other',
               'Bounded part: sampled operands, 1e-9/1e-12 tolerances on non-dyadic floats.'))
 
 P('C16', claimed=True, level='other',
-  contracts=['synth_engine'], drivers=['vf.drivers.C16'],
+  contracts=['synth_engine', 'synth_server_alloc'], drivers=['vf.drivers.C16'],
   level_text=('Node ids: alloc returns counter | client bits inside the client range, the counter '
               'advances cyclically (through the proved contract of bi.wrap), and a lemma by induction '
               'over that contract shows that a full window of consecutive ids is pairwise distinct and '
